@@ -21,6 +21,9 @@ var raceLogPath string
 var raceLogOff int64
 
 func initRaceLog() {
+	if !raceBuild {
+		return
+	}
 	gr := os.Getenv("GORACE")
 	for _, kv := range strings.Fields(gr) {
 		if strings.HasPrefix(kv, "log_path=") {
